@@ -178,13 +178,17 @@ func VerifHarness_ProxyDispatch() {
 	var mgr command.Manager
 	permitted := zz.Bool()
 	ran := 0
-	mgr.Register(brigodier.Literal("hub").
+	name := "hub"
+	if zz.Bool() {
+		name = "warpTo" // literals are matched as registered, whatever their letter case
+	}
+	mgr.Register(brigodier.Literal(name).
 		Requires(command.Requires(func(c *command.RequiresContext) bool { return permitted })).
 		Executes(command.Command(func(c *command.Context) error { ran++; return nil })))
 	client := newZZConn(767, state.Play)
 	client.ctx, client.cancel = context.WithCancel(context.Background())
 	pl := &connectedPlayer{MinecraftConn: client, profile: &profile.GameProfile{Name: "p"}, log: logr.Discard()}
-	line := "hub"
+	line := name
 	known := true
 	if zz.Bool() {
 		line, known = "nope", false
